@@ -105,6 +105,16 @@ def exc_outcome(e: BaseException):
 
 
 # ---------------------------------------------------------------- virtual-time asyncio
+def _oids_arg(op):
+    """get_many takes any iterable of OID strings: a list, a tuple, a one-shot generator."""
+    how = op.get("as", "list")
+    if how == "tuple":
+        return tuple(op["oids"])
+    if how == "gen":
+        return (o for o in op["oids"])
+    return list(op["oids"])
+
+
 class SimSelector(selectors._BaseSelectorImpl):
     def __init__(self, sim: Sim, order_rng):
         super().__init__()
@@ -660,7 +670,7 @@ class Run:
         if kind == "get":
             self.record(s, i, op, lambda: norm(sess.get(op["oid"])))
         elif kind == "get_many":
-            self.record(s, i, op, lambda: norm(sess.get_many(op["oids"])))
+            self.record(s, i, op, lambda: norm(sess.get_many(_oids_arg(op))))
         elif kind == "walk":
             self.record(s, i, op, lambda: self.walk_sync(sess, op))
         elif kind == "refresh":
@@ -759,7 +769,7 @@ class Run:
             elif kind == "get_many":
 
                 async def f(op=op):
-                    return norm(await sess.get_many(op["oids"]))
+                    return norm(await sess.get_many(_oids_arg(op)))
 
                 await self.record_async(s, i, op, f)
             elif kind == "walk":
